@@ -6,7 +6,7 @@ as well as common utilities for handling exception logging.
 import traceback
 import sys
 
-from ._message import EXCEPTION_FIELD, REASON_FIELD
+from ._message import EXCEPTION_FIELD, MESSAGE_TYPE_FIELD, REASON_FIELD, Message
 from ._util import safeunicode, load_module
 from ._validation import MessageType, Field
 from ._errors import _error_extraction
@@ -45,7 +45,11 @@ def _writeTracebackMessage(logger, typ, exception, traceback):
     # makes this message unserializable, which is itself reported with a
     # traceback message, and so on without end.
     fields.update(reason=exception, traceback=traceback, exception=typ)
-    msg = TRACEBACK_MESSAGE(**fields)
+    # Not TRACEBACK_MESSAGE(**fields): calling a MessageType is deprecated, and
+    # the resulting DeprecationWarning is an exception when warnings are
+    # errors, which would make logging a traceback raise into the application.
+    fields[MESSAGE_TYPE_FIELD] = TRACEBACK_MESSAGE.message_type
+    msg = Message(fields, TRACEBACK_MESSAGE._serializer)
     msg.write(logger)
 
 
